@@ -983,7 +983,7 @@ def growth(index, rep):
     if len(rets) != 1:
         raise AnalysisError("get_growth_rates: single return not found")
     inl = Inliner(fn)
-    expr = inl.expr(rets[0].value)
+    expr = inl.stored_value(rets[0].value)     # `return self.x` after `self.x = <formula>` reads as the formula
     # the daily series (sorted by column) is whatever array of SEAWEED_GROWTH_PER_DAY values the expression is built from: abstract it to `d`
     d = Rat.atom(("d",))
     daily = [n_ for n_ in ast.walk(expr) if isinstance(n_, ast.Call) and dotted(n_.func) in ("np.array", "np.asarray") and "SEAWEED_GROWTH_PER_DAY" in norm_src(n_)]
@@ -1004,7 +1004,7 @@ def growth(index, rep):
     except Exception as e:
         raise AnalysisError(f"monthly growth expression outside the fragment: {e!r}")
     stored = [s_ for s_ in walk_no_nested(fn) if isinstance(s_, ast.Assign) and norm_src(s_.targets[0]) == "self.growth_rates_monthly"]
-    rep.check(all(inl.src(s_.value) == inl.src(rets[0].value) for s_ in stored), rule, "supplier returns the computed series",
+    rep.check(all(inl.src(s_.value) == norm_src(inl.stored_value(rets[0].value)) for s_ in stored), rule, "supplier returns the computed series",
               "the series stored on the object is not the one returned", loc=loc(SW, fn))
     # consumer: coefficient of wet[m-1] in the LP ledger as a function of the supplied value
     from .lpdb import LPDB
